@@ -14,4 +14,6 @@ cp /repo/go.sum harness/go.sum
 for tags in $(grep -ho 'go_tags="[^"]*"' lib/props/*.py | sort -u | sed 's/go_tags="//; s/"//'); do
   ( cd harness && go1.26.8 test -c -tags "verif,$tags" -o /dev/null . ) >/dev/null 2>&1 || echo "WARNING: harness with tags $tags did not build"
 done
+# whole-tree audit (each ./check audits its own proof cone)
+if grep -rnE '\b(Admitted|admit|Axiom|Parameter|Conjecture|Admit Obligations|bypass_check|Unset Guard Checking|native_compute)\b' coq --include=*.v | grep -v '^[^:]*:[0-9]*: *(\*' ; then echo "WARNING: forbidden command somewhere in coq/ (see above)"; fi
 echo setup ok
